@@ -21,6 +21,7 @@ RULE = (
     "encoding contains a raw LF/CR; values: bounded-exhaustive grammar (depth<=3, reduced alphabets at depth) over a leaf alphabet with 64-bit boundaries, -0.0, 1e308, "
     "denormals, every C0 control, U+0085/2028/2029, BMP boundary and astral characters, non-ASCII keys, plus Hypothesis recursive values and seeded deep values (100..300 levels, around orjson's 254-level limit) and runs of same-shaped sibling containers encoded one after the other in one process; non-trivial = value contains an int "
     "beyond 2^53, a non-integral float, a control/line-separator/non-ASCII character or null; distinct = distinct value"
+    "; round 8: reads ending inside a multi-byte character of a later frame (frames compared by value)"
     "; added in rounds 6-7 of the seeded changes: decoding documents nested up to 5,000 levels; reader frame must equal the decoded text; object values as params/result themselves; edge-whitespace / zero-width texts as names and values"
 )
 ASSUMPTIONS = [
@@ -177,6 +178,18 @@ def check(case: Dict[str, Any]) -> Outcome:
             got_multi, merr = _stdio_lines(chunks)
             if merr or len(got_multi) != len(order):
                 out.fail("encoded-messages-are-not-one-frame-each-when-reads-are-not-line-aligned", f"{len(order)} encodings sent as consecutive lines in {len(chunks)} reads (cuts {cutset[:4]}): reader produced {len(got_multi)} frames ({merr})")
+                break
+        # a read that ends inside a multi-byte character of a LATER frame (the same read carried the line ends of the frames
+        # before it): every frame must still be the value its text encodes
+        inside = [c for c in range(first + 1, len(blob)) if (blob[c] & 0xC0) == 0x80][:400]
+        for c in inside[:: max(1, len(inside) // 24)]:
+            got_multi, merr = _stdio_lines([blob[:c], blob[c:]])
+            if merr or len(got_multi) != len(order):
+                out.fail("encoded-messages-are-not-one-frame-each-when-reads-are-not-line-aligned", f"{len(order)} encodings in 2 reads, the first ending inside a multi-byte character at byte {c}: reader produced {len(got_multi)} frames ({merr})")
+                break
+            bad = [k_ for k_, t_ in enumerate(order) if framed[t_][0] and len(framed[t_][0]) == 1 and first_diff(got_multi[k_], framed[t_][0][0])]
+            if bad:
+                out.fail("stdio-reader-frame-differs-when-a-read-ends-inside-a-character", f"read boundary at byte {c}: frame {bad[0]} differs from the same line read alone: {str(first_diff(got_multi[bad[0]], framed[order[bad[0]]][0][0]))[:200]}")
                 break
     # ... and written by the stdio writer (plain-dict messages, the path that encodes through the JSON backend in use
     # in this process), each value must arrive as exactly one line that decodes to it
